@@ -285,6 +285,44 @@ theorem live_serve {s s' : St} {k : Nat} (hl : Live s) (h : step s (.serve k) = 
         obtain ⟨a, b⟩ := hl.syncW n hn
         exact ⟨a, hq _ _ b⟩
 
+theorem live_serveFail {s s' : St} {k : Nat} (hl : Live s) (h : step s (.serveFail k) = some s') : Live s' := by
+  simp only [step] at h
+  cases hc : s.c2s with
+  | nil => simp [hc] at h
+  | cons num rest =>
+    simp only [hc] at h
+    cases hinf : s.info[num]? with
+    | none => simp [hinf] at h
+    | some inf =>
+      simp only [hinf] at h
+      cases h
+      unfold Live at hl ⊢
+      simp only
+      rw [hc] at hl
+      have hq : ∀ n r', InQ (num :: rest) s.s2c n → InQ rest (s.s2c ++ [(num, r')]) n := by
+        intro n r' hn
+        rcases hn with hn | hn
+        · rcases List.mem_cons.mp hn with h1 | h1
+          · right; subst h1; simp
+          · left; exact h1
+        · right; simp only [List.map_append, List.mem_append]; left; exact hn
+      have hf : ∀ n r', InFlight (num :: rest) s.s2c s.pc n → InFlight rest (s.s2c ++ [(num, r')]) s.pc n := by
+        intro n r' hn
+        rcases hn with hn | hn
+        · exact Or.inl (hq n r' hn)
+        · exact Or.inr hn
+      refine ⟨?_, ?_, ?_, hl.doneW, hl.recvW, ?_, hl.heldW⟩
+      · intro i t ht
+        obtain ⟨a, b⟩ := hl.thrs i t ht
+        exact ⟨thrLive_transfer a (fun _ x => x) (fun _ _ x => x) (fun n _ _ x => hf n _ x), b⟩
+      · intro e he
+        obtain ⟨a, b⟩ := hl.exts e he
+        exact ⟨a, hf _ _ b⟩
+      · intro n hn; exact hl.c2sB n (List.mem_cons_of_mem _ hn)
+      · intro n hn
+        obtain ⟨a, b⟩ := hl.syncW n hn
+        exact ⟨a, hq _ _ b⟩
+
 theorem live_tCheck {s s' : St} {i : Nat} (hl : Live s) (h : step s (.tCheck i) = some s') : Live s' := by
   simp only [step] at h
   split at h
@@ -454,6 +492,7 @@ theorem asyncResponse_shape {s s1 : St} {n : Nat} {r : Resp} (h : asyncResponse 
     cases r with
     | data d => simp only at h; cases h; exact ⟨⟨v, rfl⟩, rfl, rfl, rfl, rfl, rfl, rfl, rfl⟩
     | eof => simp only at h; cases h; exact ⟨⟨v, rfl⟩, rfl, rfl, rfl, rfl, rfl, rfl, rfl⟩
+    | err c => simp only at h; cases h; exact ⟨⟨v, rfl⟩, rfl, rfl, rfl, rfl, rfl, rfl, rfl⟩
 
 /-- after the locked region of `_async_response` for request `n` the queue-level invariant holds again -/
 theorem liveQ_asyncResponse {s s1 : St} {n : Nat} {r : Resp} (hl : Live s) (hd : dispNum s.pc = some n)
@@ -490,6 +529,18 @@ theorem liveF_finish {s : St} {c : RCtx} (hq : LiveQ s.info s.c2s s.s2c s.thread
     Live (finish s c) := by
   unfold Live finish
   exact liveF_of_liveQ hq (Or.inl rfl)
+
+theorem live_raise {s : St} (c : RCtx) (code : Nat)
+    (hq : LiveQ s.info s.c2s s.s2c s.threads s.extents s.done s.prefetching) : Live (raiseRead s c code) := by
+  unfold Live raiseRead
+  exact liveF_of_liveQ hq (Or.inl rfl)
+
+theorem live_afterCheck {s : St} (c : RCtx)
+    (hq : LiveQ s.info s.c2s s.s2c s.threads s.extents s.done s.prefetching) : Live (afterCheck s c) := by
+  unfold afterCheck
+  split
+  · exact live_raise (s := { s with saved := none }) c _ hq
+  · exact live_advance _ _ hq
 
 def opCapOK : Op → Prop
   | .prefetch _ cap => cap ≠ some 0
@@ -602,7 +653,7 @@ theorem live_rStep {s s' : St} (hl : Live s) (h : step s .rStep = some s') : Liv
       · -- somebody else's answer: dropped
         rename_i hnot
         cases h
-        apply live_advance
+        apply live_afterCheck
         simp only
         have hf : ∀ m i, PfOwned s.info m i → InQ s.c2s ((num, r) :: rest) m → InQ s.c2s rest m := by
           intro m i hm hq'
@@ -627,7 +678,7 @@ theorem live_rStep {s s' : St} (hl : Live s) (h : step s .rStep = some s') : Liv
     | none => simp [ha] at h
     | some s1 =>
       simp only [ha] at h; cases h
-      exact live_advance _ _ (liveQ_asyncResponse hl0 (by rw [hpc]; rfl) ha)
+      exact live_afterCheck _ (liveQ_asyncResponse hl0 (by rw [hpc]; rfl) ha)
   | allocSync c =>
     simp only [hpc] at h; cases h
     rw [hpc] at hl
@@ -733,6 +784,9 @@ theorem live_rStep {s s' : St} (hl : Live s) (h : step s .rStep = some s') : Liv
         | eof =>
           simp only at h; cases h
           exact liveF_finish (hdrop hne)
+        | err code =>
+          simp only at h; cases h
+          exact live_raise _ _ (hdrop hne)
       · simp only [hn, if_false] at h
         have hnum : InQ s.c2s rest num := inQ_pop hinq (fun hc => hn hc.symm)
         split at h
@@ -821,6 +875,7 @@ def actOK : Act → Prop
 theorem step_live {s s' : St} {a : Act} (hl : Live s) (ha : actOK a) (h : step s a = some s') : Live s' := by
   cases a with
   | serve k => exact live_serve hl h
+  | serveFail k => exact live_serveFail hl h
   | tCheck i => exact live_tCheck hl h
   | tAlloc i => exact live_tAlloc hl h
   | tSend i => exact live_tSend hl h
@@ -947,6 +1002,16 @@ theorem nonReader_step_decreases {s s' : St} {a : Act} (hn : nonReader a) (h : s
   | rOp op => cases hn
   | rStep => cases hn
   | serve k =>
+    simp only [step] at h
+    split at h
+    · cases h
+    · rename_i num rest hc
+      split at h
+      · cases h
+      · cases h
+        simp only [mu, hc, List.length_cons, List.length_append, List.length_nil]
+        omega
+  | serveFail k =>
     simp only [step] at h
     split at h
     · cases h
